@@ -912,9 +912,15 @@ static void gen_expr(Node *node) {
     cmp_zero(node->cond->ty);
     println("  je .L.else.%d", c);
     gen_expr(node->then);
+    // If only one arm is void the result is void: the other arm's
+    // value is not used.
+    if (node->ty->kind == TY_VOID)
+      discard(node->then->ty);
     println("  jmp .L.end.%d", c);
     println(".L.else.%d:", c);
     gen_expr(node->els);
+    if (node->ty->kind == TY_VOID)
+      discard(node->els->ty);
     println(".L.end.%d:", c);
     return;
   }
